@@ -65,6 +65,11 @@ func validateType(input any) error {
 		break
 	case system.Collection:
 		for _, elem := range v {
+			// FHIRPath collections do not nest: an item is a System value or a FHIR element
+			if _, nested := elem.(system.Collection); nested {
+				err = errors.Join(err, fmt.Errorf("%w: %T inside a collection", ErrUnsupportedType, elem))
+				continue
+			}
 			err = errors.Join(err, validateType(elem))
 		}
 	default:
